@@ -418,6 +418,7 @@ static void e_op(char *line)
 }
 static void e_end(void)
 {
+	alarm(0);	/* teardown (leak check at exit) is not an operation */
 	char cmd[400]; snprintf(cmd, sizeof cmd, "rm -rf '%s'", scratch);
 	if (system(cmd) != 0) { /* ignore */ }
 	free(arc); arc = NULL;
